@@ -8,6 +8,9 @@ use serde_json::{json, Value};
 use stun_agent::verif::VerifLongTerm;
 
 pub const OTHER_REALM: &str = "other.example.net";
+/// content of the duplicated REALM attribute the harness server may add (the only REALM of a 401
+/// built with realm "absent", and then legitimately the client's realm)
+pub const DUP_REALM: &str = "dup.realm";
 const COOKIE_PREFIX: &str = "obMatJos2";
 const B64: &[u8] = b"ABCDEFGHIJKLMNOPQRSTUVWXYZabcdefghijklmnopqrstuvwxyz0123456789+/";
 
@@ -92,7 +95,7 @@ fn first_admitted<'a>(p: &'a Parsed, t: u16) -> Option<&'a obs::RawAttr> {
 /// {1 = MD5, 2 = SHA-256}, and "otherpw" for the same keys with a different password
 pub fn lt_key_names(cfg: &Cfg, b: &[u8], p: &Parsed, t: u16) -> Vec<String> {
     let mut out = Vec::new();
-    let mut realms: Vec<String> = vec![SERVER_REALM.to_string(), OTHER_REALM.to_string()];
+    let mut realms: Vec<String> = vec![SERVER_REALM.to_string(), OTHER_REALM.to_string(), DUP_REALM.to_string()];
     EXTRA_REALMS.with(|r| {
         for x in r.borrow().iter() {
             if !realms.contains(x) {
@@ -275,7 +278,7 @@ impl LtServer {
             let dupk = if lt["dup"].as_bool().unwrap_or(false) { "plain" } else { lt["dup"].as_str().unwrap_or("") };
             if !dupk.is_empty() {
                 // duplicated attributes with different content: the first of each must win
-                items.push(Item::Raw(obs::T_REALM, b"dup.realm".to_vec()));
+                items.push(Item::Raw(obs::T_REALM, DUP_REALM.as_bytes().to_vec()));
                 match dupk {
                     "flip" => {
                         // a second nonce cookie whose security feature bits are the opposite
